@@ -54,9 +54,13 @@ def splitDots : List Char → List Char → List String
   | acc, [] => [String.ofList acc.reverse]
   | acc, c :: cs => if c = '.' then String.ofList acc.reverse :: splitDots [] cs else splitDots (c :: acc) cs
 
-/-- `Path.Next` followed by `Parts()` (same function as `TPath.next`, with the split spelled out) -/
+/-- `strings.ReplaceAll(part, ".", "👻")` on code points -/
+def ghostify (s : String) : String :=
+  String.ofList (s.toList.flatMap fun c => if c = '.' then TPath.ghost.toList else [c])
+
+/-- `Path.Next` followed by `Parts()` (same function as `TPath.next`, with split and replace spelled out on code points) -/
 def next (p : TPath) (part : String) : TPath :=
-  if p = TPath.root then splitDots [] part.toList else p ++ [part.replace "." TPath.ghost]
+  if p = TPath.root then splitDots [] part.toList else p ++ [ghostify part]
 
 def has (k : String) (kvs : Val.KVs) : Bool := (Val.lookup k kvs).isSome
 
